@@ -391,7 +391,15 @@ func sameKeys(a, b []Item) bool {
 
 var tmpOnce sync.Once
 var tmpDir string
+
+// tmpMu guards tmpSeq and tmpFiles (checks run on several goroutines in the concurrent stage).
+var tmpMu sync.Mutex
 var tmpSeq int
+var tmpFiles []string
+
+// keepTempUntilBatchEnd: in the concurrent stage cleanupTemp does nothing (one check must not
+// remove another check's files); the stage removes the files after every batch.
+var keepTempUntilBatchEnd bool
 
 func scratchDir() string {
 	tmpOnce.Do(func() {
@@ -408,13 +416,27 @@ func scratchDir() string {
 	return tmpDir
 }
 
+// nextTmp returns a fresh sequence number for a temp file name.
+func nextTmp() int {
+	tmpMu.Lock()
+	defer tmpMu.Unlock()
+	tmpSeq++
+	return tmpSeq
+}
+
+// trackTemp registers paths for removal by cleanupTemp.
+func trackTemp(paths ...string) {
+	tmpMu.Lock()
+	defer tmpMu.Unlock()
+	tmpFiles = append(tmpFiles, paths...)
+}
+
 // writeTemp writes data to a fresh file with the given suffix (".gz": gzip-compressed).
 //
 // members > 1 writes a gzip file of that many concatenated members (as `cat a.gz b.gz` or bgzip
 // produce); such a file is a valid gzip file with the concatenated content.
 func writeTemp(data []byte, suffix string, members ...int) string {
-	tmpSeq++
-	p := filepath.Join(scratchDir(), fmt.Sprintf("f%d%s", tmpSeq, suffix))
+	p := filepath.Join(scratchDir(), fmt.Sprintf("f%d%s", nextTmp(), suffix))
 	if strings.HasSuffix(suffix, ".gz") {
 		n := 1
 		if len(members) > 0 && members[0] > 1 {
@@ -432,16 +454,23 @@ func writeTemp(data []byte, suffix string, members ...int) string {
 	if err := os.WriteFile(p, data, 0o644); err != nil {
 		panic(err)
 	}
-	tmpFiles = append(tmpFiles, p)
+	trackTemp(p)
 	return p
 }
 
-var tmpFiles []string
-
 // cleanupTemp removes the files written by writeTemp since the last call.
 func cleanupTemp() {
-	for _, p := range tmpFiles {
-		os.Remove(p)
+	if keepTempUntilBatchEnd {
+		return
+	}
+	removeTemp()
+}
+
+func removeTemp() {
+	tmpMu.Lock()
+	defer tmpMu.Unlock()
+	for i := len(tmpFiles) - 1; i >= 0; i-- {
+		os.Remove(tmpFiles[i])
 	}
 	tmpFiles = tmpFiles[:0]
 }
